@@ -161,6 +161,9 @@ CHECKS = {
     category="proof",
     text="PARTIAL proof. Proved in Coq for every expression the builder can construct and every real assignment: the builder's translation to the name-based tree (to_exp) commutes with evaluation - the builder's own evaluator "
          "(eval_expr, used by BuilderSolution::eval) returns exactly the value the language's semantics gives the translated tree, defined exactly when it is; a handle resolves to the value of the variable of that name. "
+         "Proved for every sequence of public ModelBuilder calls (add_var, with, with_all, minimize, maximize, satisfy in any order; Model/BuilderOps.v): the model into_model returns is determined by the declared variables in order, "
+         "the constraints in order however grouped and the LAST objective call (C16_call_order_irrelevant), it exists exactly when no name is declared twice, handles keep naming their variable, every declared variable is marked used; "
+         "tied on every run by running random call sequences (incl. duplicate declarations, several objective calls, empty with_all) on the real ModelBuilder and comparing into_model's result structurally. "
          "Tie on every run: every expression of every generated model is built through the public API (operators, helper functions, methods, macros' target constructors), the tree ModelBuilder::into_model produced and the values "
          "BuilderSolution::eval returns at fixed assignments (through a Solver that returns a given point) must equal the model's. The agreement of the front doors is evaluated on the implementation: builder.linearize() vs text front end "
          "vs staged pipes row for row (declared-but-unused builder variables kept), four orders of builder calls, and - under a watchdog - the same verdict and optimum from builder/Auto, RoocSolver::solve_using and PipeRunner, "
